@@ -25,11 +25,25 @@ def run_case(desc):
                 if rng.random() < 0.25:
                     flaky[(kind, f"s{i}")] = rng.randint(1, retry_n - 1)
     seen = collections.Counter()
+    out_ids = history.choose_out(rng, S)
+    exp = S.expect(out_ids, None)
+    # one store operation that keeps failing for n or more attempts in a row (it EXHAUSTS retry=n): it is attempted exactly n times, the run
+    # fails, and the reported exception is the one of the n-th attempt - also when the operation would have succeeded at attempt n+1
+    exhaust = None
+    users_ = collections.Counter(S.store_name[i] for i in S.reg)
+    if retry_n and rng.random() < 0.4:
+        cands = [("rd", S.store_name[i]) for i in sorted(exp.reads)] + [("wr_before", S.store_name[i]) for i in sorted(exp.writes)] + [("mt", S.store_name[i]) for i in sorted(S.reg)]
+        cands = [c_ for c_ in cands if users_[c_[1]] == 1]
+        if cands:
+            exhaust = (rng.choice(cands), rng.choice([retry_n, retry_n + 1, retry_n * retry_n - 1, 10 ** 6]))
+            flaky.pop(exhaust[0], None)
 
     def hook(kind, st):
         with H.lock:
             seen[(kind, st.name)] += 1
             c = seen[(kind, st.name)]
+        if exhaust is not None and exhaust[0] == (kind, st.name) and c <= exhaust[1]:
+            raise InjectedError(f"exhausting {kind} {st.name} attempt {c}")
         j = flaky.get((kind, st.name))
         if j is not None and c <= j:
             raise InjectedError(f"flaky {kind} {st.name} attempt {c}")
@@ -38,8 +52,6 @@ def run_case(desc):
 
     H.store_hook = hook
     H.pre = lambda nid, att: time.sleep(0.0001)
-    out_ids = history.choose_out(rng, S)
-    exp = S.expect(out_ids, None)
     kw = {}
     if sW is not None:
         kw["stale_check_max_workers"] = sW
@@ -48,10 +60,23 @@ def run_case(desc):
     res, exc = S.run(out_ids, W=W, sched=desc["sched"], **kw)
     bound_mt = sW if sW is not None else W
     bad = None
+    exhaust_planned = exhaust is not None
+    if exhaust is not None and seen[exhaust[0]] == 0:
+        exhaust = None  # that operation is not performed in this run (e.g. a modified time nobody has to ask for): an ordinary run
     if H.max_mt_in_flight > bound_mt:
         bad = f"{H.max_mt_in_flight} modified-time queries ran concurrently; stale_check_max_workers={sW}, max_workers={W}"
     elif H.max_in_flight > W:
         bad = f"{H.max_in_flight} calls/store operations ran concurrently with max_workers={W}"
+    elif exhaust is not None:
+        (xkind, xname), jx = exhaust
+        got = seen[(xkind, xname)]
+        cause = exc.__cause__ if exc is not None else None
+        if exc is None:
+            bad = f"store operation {xkind} {xname} fails its first {jx} attempts, retry={retry_n}: run returned normally after {got} attempts (at most {retry_n} are allowed)"
+        elif got != retry_n and isinstance(cause, InjectedError) and "exhausting" in str(cause):
+            bad = f"store operation {xkind} {xname} fails its first {jx} attempts, retry={retry_n}: attempted {got} times (exactly {retry_n} expected)"
+        elif isinstance(cause, InjectedError) and "exhausting" in str(cause) and not str(cause).endswith(f"attempt {retry_n}"):
+            bad = f"store operation {xkind} {xname} exhausted retry={retry_n}: the reported exception is {cause!r}, not the one of the last attempt"
     elif exc is not None:
         bad = f"run raised {exc!r} (cause {exc.__cause__!r}) although every flaky store operation succeeds within retry={retry_n}"
     else:
@@ -77,7 +102,7 @@ def run_case(desc):
     n_reg = len(S.reg)
     counters = {"stale_runs": 1, "stale_mt_bound_reached": int(H.max_mt_in_flight == min(bound_mt, n_reg)),
                 "stale_max_mt_in_flight": H.max_mt_in_flight, "stale_flaky_store_ops": len(flaky),
-                "stale_runs_with_retry": int(bool(retry_n))}
+                "stale_runs_with_retry": int(bool(retry_n)), "stale_runs_store_op_exhausts_retry": int(exhaust is not None), "stale_exhausting_op_not_performed": int(exhaust_planned and exhaust is None)}
     r = {"status": "ok", "counters": counters, "nontrivial": H.max_mt_in_flight >= 2 or bool(flaky),
          "sig": hashlib.sha1(("\n".join(S.describe(100)) + f"|{W}|{sW}|{retry_n}|{sorted(flaky)}").encode()).hexdigest()[:16]}
     if seed % 150 == 0 or bad:
